@@ -916,7 +916,7 @@ func c4Grid(thorough bool) []*c4Abs {
 // the QE list without a match, honest controls); returns spec + tags.
 func c4Special(rng *rand.Rand, k int) (*world.Spec, []string) {
 	tee1 := k % 2
-	kind := (k / 2) % 14
+	kind := (k / 2) % 15
 	s := c4Base(rng, tee1)
 	sgx := s.Cert("leaf").Sgx
 	tee := s.Quote.Body.TeeTcbSvn
@@ -981,6 +981,17 @@ func c4Special(rng *rand.Rand, k int) (*world.Spec, []string) {
 		l := good
 		l.Tdx[0], l.Tdx[1] = int(tee[0])+1+rng.IntN(3), int(tee[1])+1+rng.IntN(3)
 		s.Tcb.Levels = []world.Level{l, {Status: "OutOfDate"}}
+	case 13:
+		// the certificate's raw CPUSVN value (OID …1.2.18) is not what the levels are compared with: the 16 component SVNs are.
+		// Here the raw value is all ff; the first listed level is above the platform in one component (UpToDate), the level
+		// Intel's algorithm selects comes second and is OutOfDate
+		name = "raw-cpusvn-all-ff/level-above-components-first"
+		sgx.CpuSvn = bytes.Repeat([]byte{0xff}, 16)
+		above := good
+		above.Sgx[rng.IntN(16)] = 255
+		sel := good
+		sel.Status = []string{"OutOfDate", "Revoked", "OutOfDateConfigurationNeeded"}[rng.IntN(3)]
+		s.Tcb.Levels = []world.Level{above, sel}
 	default:
 		name = "honest-control"
 		s.Tcb.Levels = []world.Level{good}
@@ -1136,9 +1147,9 @@ func c4AccOK(w *world.World) bool {
 func c04(r *hx.Run) {
 	thorough := r.Tier == "thorough"
 	grid := c4Grid(thorough)
-	nSpecial, nRandom := 28*3, 1900
+	nSpecial, nRandom := 30*3, 1900
 	if thorough {
-		nSpecial, nRandom = 28*40, 22000
+		nSpecial, nRandom = 30*40, 22000
 	}
 	// the plainest instance of the two shapes the statement singles out first (platform level not UpToDate while the TDX module
 	// level is; no level matches at all), so that the first recorded cases of a defect are its plainest form
